@@ -49,6 +49,22 @@ pub fn universe_type(i: usize) -> Script {
     Script::new_builder().hash_type(ScriptHashType::Data.into()).code_hash(as_code_hash()).args(Bytes::from(args).pack()).build()
 }
 
+/// A hand-assembled RISC-V script (sim/witness_gate.bin, 18 instructions): loads the first 8 bytes of witness 0
+/// (source: input) and exits with its first byte; a missing witness exits with 1. So a transaction spending a cell
+/// locked by it verifies iff witnesses[0] is empty or starts with 0 — the only script here whose verdict depends on
+/// the witnesses.
+pub fn witness_gate_bin() -> &'static [u8] {
+    include_bytes!("witness_gate.bin")
+}
+
+pub fn gate_code_hash() -> Byte32 {
+    CellOutput::calc_data_hash(witness_gate_bin())
+}
+
+pub fn gate_lock() -> Script {
+    Script::new_builder().hash_type(ScriptHashType::Data.into()).code_hash(gate_code_hash()).args(Bytes::from(vec![0x9au8]).pack()).build()
+}
+
 pub const N_LOCKS: usize = 6;
 pub const N_TYPES: usize = 2;
 
@@ -78,11 +94,14 @@ pub struct TxGen {
     pub same_block: u64,
     /// cellbase lock from the universe (true) or the miner lock
     pub cellbase_universe: bool,
+    /// C18 only: the genesis block carries the witness-gate script and cells locked by it, and generated outputs
+    /// use that lock now and then
+    pub gate: bool,
 }
 
 impl Default for TxGen {
     fn default() -> Self {
-        TxGen { density: 60, max_txs: 3, typed: 20, same_block: 25, cellbase_universe: false }
+        TxGen { density: 60, max_txs: 3, typed: 20, same_block: 25, cellbase_universe: false, gate: false }
     }
 }
 
@@ -144,6 +163,14 @@ impl Chain {
             cb = cb
                 .output(CellOutput::new_builder().capacity(Capacity::shannons(100_000_0000_0000).pack()).lock(universe_lock(i)).build())
                 .output_data(Bytes::new().pack());
+        }
+        if txgen.gate {
+            cb = cb
+                .output(CellOutput::new_builder().capacity(Capacity::shannons(1_000_000_0000_0000).pack()).lock(universe_lock(3)).build())
+                .output_data(Bytes::from(witness_gate_bin().to_vec()).pack());
+            for _ in 0..6usize {
+                cb = cb.output(CellOutput::new_builder().capacity(Capacity::shannons(100_000_0000_0000).pack()).lock(gate_lock()).build()).output_data(Bytes::new().pack());
+            }
         }
         let genesis = BlockBuilder::default()
             .compact_target(ct0.pack())
@@ -320,7 +347,13 @@ impl Chain {
             for j in 0..n_out {
                 let cap = if j + 1 == n_out { left } else { left / 2 + self.rng.below(left / 4 + 1) };
                 left -= cap.min(left);
-                let lock = if self.rng.chance(85, 100) { universe_lock(self.rng.below(N_LOCKS as u64) as usize) } else { miner_lock() };
+                let lock = if self.txgen.gate && self.rng.chance(1, 4) {
+                    gate_lock()
+                } else if self.rng.chance(85, 100) {
+                    universe_lock(self.rng.below(N_LOCKS as u64) as usize)
+                } else {
+                    miner_lock()
+                };
                 let mut ob = CellOutput::new_builder().capacity(Capacity::shannons(cap).pack()).lock(lock);
                 if self.rng.chance(self.txgen.typed, 100) {
                     ob = ob.type_(Some(universe_type(self.rng.below(N_TYPES as u64) as usize)).pack());
